@@ -207,6 +207,8 @@ def sc_terminate(params, obs, save):
             h = pool.apply_async(tasks.t_in_handler, (tag, 60), **_lw(params))
         elif state == 'swallow_base':
             h = pool.apply_async(tasks.t_catch_base, (tag, 60), **_lw(params))
+        elif state == 'translate':
+            h = pool.apply_async(tasks.t_translate, (tag, 60), **_lw(params))
         elif state == 'ignore_term':
             h = pool.apply_async(tasks.t_ignore_term, (tag, 60), **_lw(params))
         else:
@@ -321,7 +323,7 @@ def sc_signal_worker(params, obs, save):
         h = None
     else:
         fn = {'python': tasks.t_busy, 'c_sleep': tasks.t_value,
-              'except_handler': tasks.t_in_handler}[state]
+              'except_handler': tasks.t_in_handler, 'translate': tasks.t_translate}[state]
         h = pool.apply_async(fn, ('victim', 30), lost_worker_timeout=T)
         if not _wait_for(lambda: h.accepted(), 10):
             obs['not_accepted'] = True
